@@ -192,6 +192,22 @@ def shrink(c):
         yield d
 
 
+# functions of the implementation this property is anchored in: their line coverage under the correspondence cases is
+# measured on the staged copy and reported in the evidence (implementation_line_coverage)
+ANCHORS = [
+    "datascope/utility/provenance.py:Equality.__and__",
+    "datascope/utility/provenance.py:Equality.__or__",
+    "datascope/utility/provenance.py:Conjunction.__and__",
+    "datascope/utility/provenance.py:Conjunction.__or__",
+    "datascope/utility/provenance.py:Disjunction.__and__",
+    "datascope/utility/provenance.py:Disjunction.__or__",
+    "datascope/utility/provenance.py:Equality.from_data",
+    "datascope/utility/provenance.py:Conjunction.from_data",
+    "datascope/utility/provenance.py:Disjunction.from_data",
+    "datascope/utility/provenance.py:Expression.from_data",
+    "datascope/utility/provenance.py:Provenance.__getitem__",
+]
+
 MANIFEST = {
     "text": "Proof: C11_and / C11_or / C11_nesting (all nine operand-shape combinations, any nesting, every assignment), "
             "C11_and_wf / C11_or_wf, C11_roundtrip(_syntactic) for all ragged expression lists, over an inductive model "
